@@ -31,6 +31,7 @@ func Parse(query string) ([]Statement, error) {
 	var result []Statement
 	var resultError error
 	for {
+		verifSite(1)
 		stmtParser := p.splitSemi()
 
 		stmt, err := firstParse(
@@ -101,6 +102,7 @@ func firstParse[T any](productions ...func() (T, error)) (T, error) {
 }
 
 func (p *parser) letStatement() (*LetStatement, error) {
+	verifSite(2)
 	keyword, _ := p.next()
 	if keyword.Kind != TokenIdentifier || keyword.Value != "let" {
 		p.prev()
@@ -137,6 +139,7 @@ func (p *parser) letStatement() (*LetStatement, error) {
 }
 
 func (p *parser) tabularExpr() (*TabularExpr, error) {
+	verifSite(3)
 	tableName, err := p.ident()
 	if err != nil {
 		return nil, err
@@ -147,6 +150,7 @@ func (p *parser) tabularExpr() (*TabularExpr, error) {
 
 	var finalError error
 	for i := 0; ; i++ {
+		verifSite(32)
 		pipeToken, _ := p.next()
 		if pipeToken.Kind != TokenPipe {
 			p.prev()
@@ -254,6 +258,7 @@ func (p *parser) tabularExpr() (*TabularExpr, error) {
 }
 
 func (p *parser) countOperator(pipe, keyword Token) (*CountOperator, error) {
+	verifSite(4)
 	return &CountOperator{
 		Pipe:    pipe.Span,
 		Keyword: keyword.Span,
@@ -261,6 +266,7 @@ func (p *parser) countOperator(pipe, keyword Token) (*CountOperator, error) {
 }
 
 func (p *parser) whereOperator(pipe, keyword Token) (*WhereOperator, error) {
+	verifSite(5)
 	x, err := p.expr()
 	err = makeErrorOpaque(err)
 	return &WhereOperator{
@@ -271,6 +277,7 @@ func (p *parser) whereOperator(pipe, keyword Token) (*WhereOperator, error) {
 }
 
 func (p *parser) sortOperator(pipe, keyword Token) (*SortOperator, error) {
+	verifSite(6)
 	by, _ := p.next()
 	if by.Kind != TokenBy {
 		op := &SortOperator{
@@ -290,6 +297,7 @@ func (p *parser) sortOperator(pipe, keyword Token) (*SortOperator, error) {
 		Keyword: newSpan(keyword.Span.Start, by.Span.End),
 	}
 	for {
+		verifSite(33)
 		term, err := p.sortTerm()
 		if term != nil {
 			op.Terms = append(op.Terms, term)
@@ -307,6 +315,7 @@ func (p *parser) sortOperator(pipe, keyword Token) (*SortOperator, error) {
 }
 
 func (p *parser) sortTerm() (*SortTerm, error) {
+	verifSite(7)
 	x, err := p.expr()
 	if err != nil {
 		return nil, err
@@ -376,6 +385,7 @@ func (p *parser) sortTerm() (*SortTerm, error) {
 }
 
 func (p *parser) takeOperator(pipe, keyword Token) (*TakeOperator, error) {
+	verifSite(8)
 	op := &TakeOperator{
 		Pipe:    pipe.Span,
 		Keyword: keyword.Span,
@@ -389,6 +399,7 @@ func (p *parser) takeOperator(pipe, keyword Token) (*TakeOperator, error) {
 }
 
 func (p *parser) topOperator(pipe, keyword Token) (*TopOperator, error) {
+	verifSite(9)
 	op := &TopOperator{
 		Pipe:    pipe.Span,
 		Keyword: keyword.Span,
@@ -417,6 +428,7 @@ func (p *parser) topOperator(pipe, keyword Token) (*TopOperator, error) {
 }
 
 func (p *parser) rowCount() (Expr, error) {
+	verifSite(10)
 	x, err := p.expr()
 	if err != nil {
 		return x, err
@@ -435,12 +447,14 @@ func (p *parser) rowCount() (Expr, error) {
 }
 
 func (p *parser) projectOperator(pipe, keyword Token) (*ProjectOperator, error) {
+	verifSite(11)
 	op := &ProjectOperator{
 		Pipe:    pipe.Span,
 		Keyword: keyword.Span,
 	}
 
 	for {
+		verifSite(34)
 		colName, err := p.ident()
 		if err != nil {
 			return op, makeErrorOpaque(err)
@@ -479,12 +493,14 @@ func (p *parser) projectOperator(pipe, keyword Token) (*ProjectOperator, error) 
 }
 
 func (p *parser) extendOperator(pipe, keyword Token) (*ExtendOperator, error) {
+	verifSite(12)
 	op := &ExtendOperator{
 		Pipe:    pipe.Span,
 		Keyword: keyword.Span,
 	}
 
 	for {
+		verifSite(35)
 		col, err := p.extendColumn()
 		if err != nil {
 			return op, makeErrorOpaque(err)
@@ -503,6 +519,7 @@ func (p *parser) extendOperator(pipe, keyword Token) (*ExtendOperator, error) {
 }
 
 func (p *parser) renderOperator(pipe, keyword Token) (*RenderOperator, error) {
+	verifSite(13)
 	op := &RenderOperator{
 		Pipe:    pipe.Span,
 		Keyword: keyword.Span,
@@ -547,6 +564,7 @@ func (p *parser) renderOperator(pipe, keyword Token) (*RenderOperator, error) {
 
 	// Parse properties
 	for {
+		verifSite(36)
 		prop, err := p.renderProperty()
 		if err != nil {
 			return op, makeErrorOpaque(err)
@@ -574,6 +592,7 @@ func (p *parser) renderOperator(pipe, keyword Token) (*RenderOperator, error) {
 }
 
 func (p *parser) renderProperty() (*RenderProperty, error) {
+	verifSite(14)
 	prop := &RenderProperty{
 		Assign: nullSpan(),
 	}
@@ -607,6 +626,7 @@ func (p *parser) renderProperty() (*RenderProperty, error) {
 }
 
 func (p *parser) extendColumn() (*ExtendColumn, error) {
+	verifSite(15)
 	restorePos := p.pos
 
 	col := &ExtendColumn{
@@ -636,6 +656,7 @@ func (p *parser) extendColumn() (*ExtendColumn, error) {
 }
 
 func (p *parser) summarizeOperator(pipe, keyword Token) (*SummarizeOperator, error) {
+	verifSite(16)
 	op := &SummarizeOperator{
 		Pipe:    pipe.Span,
 		Keyword: keyword.Span,
@@ -643,6 +664,7 @@ func (p *parser) summarizeOperator(pipe, keyword Token) (*SummarizeOperator, err
 	}
 
 	for {
+		verifSite(37)
 		col, err := p.summarizeColumn()
 		if isNotFound(err) {
 			break
@@ -688,6 +710,7 @@ func (p *parser) summarizeOperator(pipe, keyword Token) (*SummarizeOperator, err
 	}
 	op.By = sep.Span
 	for {
+		verifSite(38)
 		col, err := p.summarizeColumn()
 		if isNotFound(err) {
 			return op, makeErrorOpaque(err)
@@ -711,6 +734,7 @@ func (p *parser) summarizeOperator(pipe, keyword Token) (*SummarizeOperator, err
 }
 
 func (p *parser) summarizeColumn() (*SummarizeColumn, error) {
+	verifSite(17)
 	restorePos := p.pos
 
 	col := &SummarizeColumn{
@@ -746,6 +770,7 @@ var joinTypes = map[string]struct{}{
 }
 
 func (p *parser) joinOperator(pipe, keyword Token) (*JoinOperator, error) {
+	verifSite(18)
 	op := &JoinOperator{
 		Pipe:       pipe.Span,
 		Keyword:    keyword.Span,
@@ -844,6 +869,7 @@ func (p *parser) joinOperator(pipe, keyword Token) (*JoinOperator, error) {
 }
 
 func (p *parser) asOperator(pipe, keyword Token) (*AsOperator, error) {
+	verifSite(19)
 	op := &AsOperator{
 		Pipe:    pipe.Span,
 		Keyword: keyword.Span,
@@ -855,12 +881,14 @@ func (p *parser) asOperator(pipe, keyword Token) (*AsOperator, error) {
 
 // exprList parses one or more comma-separated expressions.
 func (p *parser) exprList() ([]Expr, error) {
+	verifSite(20)
 	first, err := p.expr()
 	if err != nil {
 		return nil, err
 	}
 	result := []Expr{first}
 	for {
+		verifSite(39)
 		restorePos := p.pos
 		tok, ok := p.next()
 		if !ok {
@@ -886,6 +914,7 @@ func (p *parser) exprList() ([]Expr, error) {
 }
 
 func (p *parser) expr() (Expr, error) {
+	verifSite(21)
 	x, err1 := p.unaryExpr()
 	if isNotFound(err1) {
 		return x, err1
@@ -896,8 +925,10 @@ func (p *parser) expr() (Expr, error) {
 
 // exprBinaryTrail parses zero or more (binaryOp, unaryExpr) sequences.
 func (p *parser) exprBinaryTrail(x Expr, minPrecedence int) (Expr, error) {
+	verifSite(22)
 	var finalError error
 	for {
+		verifSite(40)
 		op1, ok := p.next()
 		if !ok {
 			return x, finalError
@@ -962,6 +993,7 @@ func (p *parser) exprBinaryTrail(x Expr, minPrecedence int) (Expr, error) {
 
 		// Resolve any higher precedence operators first.
 		for {
+			verifSite(41)
 			op2, ok := p.next()
 			if !ok {
 				break
@@ -1007,6 +1039,7 @@ func operatorPrecedence(op TokenKind) int {
 }
 
 func (p *parser) unaryExpr() (Expr, error) {
+	verifSite(23)
 	tok, ok := p.next()
 	if !ok {
 		return nil, &parseError{
@@ -1031,12 +1064,14 @@ func (p *parser) unaryExpr() (Expr, error) {
 }
 
 func (p *parser) primaryExpr() (Expr, error) {
+	verifSite(24)
 	x, err := p.innerPrimaryExpr()
 	if err != nil {
 		return x, err
 	}
 
 	for {
+		verifSite(42)
 		tok, ok := p.next()
 		if !ok {
 			return x, nil
@@ -1071,6 +1106,7 @@ func (p *parser) primaryExpr() (Expr, error) {
 // innerPrimaryExpr parses the first element of a primary expression
 // (i.e. a primary expression without any trailing index expressions).
 func (p *parser) innerPrimaryExpr() (Expr, error) {
+	verifSite(25)
 	tok, ok := p.next()
 	if !ok {
 		return nil, &parseError{
@@ -1174,6 +1210,7 @@ func (p *parser) innerPrimaryExpr() (Expr, error) {
 }
 
 func (p *parser) ident() (*Ident, error) {
+	verifSite(26)
 	tok, _ := p.next()
 	if tok.Kind != TokenIdentifier && tok.Kind != TokenQuotedIdentifier {
 		p.prev()
@@ -1192,6 +1229,7 @@ func (p *parser) ident() (*Ident, error) {
 
 // qualifiedIdent parses one or more dot-separated identifiers.
 func (p *parser) qualifiedIdent() (*QualifiedIdent, error) {
+	verifSite(27)
 	id, err := p.ident()
 	if err != nil {
 		return nil, err
@@ -1199,6 +1237,7 @@ func (p *parser) qualifiedIdent() (*QualifiedIdent, error) {
 
 	qid := id.AsQualified()
 	for {
+		verifSite(43)
 		tok, _ := p.next()
 		if tok.Kind != TokenDot {
 			p.prev()
@@ -1219,6 +1258,7 @@ func (p *parser) qualifiedIdent() (*QualifiedIdent, error) {
 //
 // For splitting by semicolon, see [*parser.splitSemi].
 func (p *parser) split(search TokenKind) *parser {
+	verifSite(28)
 	// stack is the list of expected closing parentheses/brackets.
 	// When a closing parenthesis/bracket is encountered,
 	// the stack is popped to include the first matching parenthesis/bracket.
@@ -1227,6 +1267,7 @@ func (p *parser) split(search TokenKind) *parser {
 	start := p.pos
 loop:
 	for {
+		verifSite(44)
 		tok, ok := p.next()
 		if !ok {
 			return &parser{
@@ -1282,8 +1323,10 @@ loop:
 // and returns a new parser that reads the tokens that were skipped over.
 // If no semicolon is found, splitSemi advances to EOF.
 func (p *parser) splitSemi() *parser {
+	verifSite(29)
 	start := p.pos
 	for {
+		verifSite(45)
 		tok, ok := p.next()
 		if !ok {
 			return &parser{
@@ -1304,6 +1347,7 @@ func (p *parser) splitSemi() *parser {
 }
 
 func (p *parser) endSplit() error {
+	verifSite(30)
 	if p.splitKind == 0 {
 		// This is a bug, but treating as an error instead of panicing.
 		return errors.New("internal error: endSplit called on non-split parser")
@@ -1331,6 +1375,7 @@ func (p *parser) endSplit() error {
 }
 
 func (p *parser) next() (Token, bool) {
+	verifSite(31)
 	if p.pos >= len(p.tokens) {
 		p.pos = len(p.tokens) + 1 // Once we produce EOF, don't permit rewinding.
 		return Token{
